@@ -24,12 +24,17 @@ namespace GV.Model.Shutdown
 structure Cfg where
   selectsDone : Bool
   perKindStates : Bool
+  /-- muxer before its repair: `UnregisterProtocol` (called by `Protocol.Stop`) waits for the
+      receiver's mutex, which the muxer's read loop holds while it tries to hand a segment to a
+      protocol whose channels are full and no longer drained -/
+  unregisterBlocks : Bool := false
 deriving Repr, DecidableEq
 
 /-- what the peer does -/
 inductive PeerEv
   | reply (kind : Nat)   -- a well-formed reply of this kind
   | junk                 -- undecodable bytes, unknown message type, truncated segment
+  | flood                -- surplus messages beyond what the receive queue and the muxer channel hold
   | close                -- the connection ends
 deriving Repr, DecidableEq
 
@@ -44,6 +49,9 @@ structure St where
   handlerBlocked : Bool
   protoDead : Bool
   closed : Bool
+  /-- the muxer's read loop is parked on a full channel of this protocol (it no longer reads the
+      connection, so the peer's disconnect goes unnoticed) -/
+  parked : Bool := false
 deriving Repr, DecidableEq
 
 def St.init (kind : Nat) : St :=
@@ -59,6 +67,13 @@ def step (cfg : Cfg) (s : St) : PeerEv → St
         else if cfg.perKindStates then { s with protoDead := true }
         else { s with handlerBlocked := true }
   | .junk => if s.closed then s else { s with protoDead := true }
+  | .flood =>
+    -- surplus messages are only queued (never handled) while the client has agency or the
+    -- protocol is dead; beyond the queues' capacity the muxer's read loop parks
+    if s.closed then s else
+    match s.caller with
+    | .returned _ => { s with parked := true }
+    | .waiting => if s.protoDead then { s with parked := true } else s
   | .close => { s with closed := true }
 
 /-- DoneChan closes: the protocol stopped or the connection ended, and no handler is stuck -/
@@ -79,6 +94,13 @@ def leaks (cfg : Cfg) (kind : Nat) (evs : List PeerEv) : Bool :=
   let s := (evs ++ [PeerEv.close]).foldl (step cfg) (St.init kind)
   s.handlerBlocked || (finish cfg s).isNone
 
-def fixed : Cfg := { selectsDone := true, perKindStates := true }
+def fixed : Cfg := { selectsDone := true, perKindStates := true, unregisterBlocks := false }
+
+/-- The protocol client's own `Stop()` after the peer's behaviour `evs` (and its disconnect):
+    it calls `Protocol.Stop()` — which unregisters from the muxer — and waits for DoneChan.
+    `true` = it returns. -/
+def stopReturns (cfg : Cfg) (kind : Nat) (evs : List PeerEv) : Bool :=
+  let s := (evs ++ [PeerEv.close]).foldl (step cfg) (St.init kind)
+  !(cfg.unregisterBlocks && s.parked) && !s.handlerBlocked
 
 end GV.Model.Shutdown
